@@ -296,6 +296,23 @@ pub fn families(thorough: bool, deep: bool) -> Vec<Family> {
             configs: str_cfgs.clone(),
         });
     }
+    // version statements with every pair of numbers from a list of boundary values (the version is mapped to an internal
+    // enumeration by arithmetic on the two numbers)
+    {
+        let nums: Vec<&'static str> = vec!["0", "1", "2", "9", "50", "71", "99", "100", "255", "256", "655", "656", "1000", "32767", "32768", "65535", "65536", "4294967295", "4294967296", "18446744073709551616", "-1", "0x10", "1.5", "x"];
+        let n = nums.len();
+        f.push(Family {
+            name: "version numbers".into(),
+            count: n * n * 2,
+            gen: Box::new(move |i| {
+                let kw = if i % 2 == 0 { "ASAP2_VERSION" } else { "ASAP2_VERSION 1 71 A2ML_VERSION" };
+                let a = nums[(i / 2) % n];
+                let b = nums[i / 2 / n];
+                format!("{kw} {a} {b} /begin PROJECT p \"\" /begin MODULE m \"\" /end MODULE /end PROJECT").into_bytes()
+            }),
+            configs: str_cfgs.clone(),
+        });
+    }
     // a multi-byte character inserted at every byte offset of every document
     {
         let texts = std::sync::Arc::new(doc_texts(thorough));
